@@ -33,7 +33,9 @@ var alphabet = []string{"a", "ab", "aC", "b", "a_", "a-", "a0", "abcdefghijkl", 
 // extra names that collide with the alphabet up to case.
 var dupAlphabet = []string{"A", "aB", "AB", "B", "ac"}
 
-var classes = []string{"aaaa", "aaab", "Aaaa", "bb", ""}
+// classes: full 4-byte, differing in case, SHORT AND BLANK-PADDED ("bb  ", "b   ", all blanks — what mNewbrd writes for a
+// class shorter than two full-width characters), short and NUL-padded, empty.
+var classes = []string{"aaaa", "aaab", "Aaaa", "bb  ", "b   ", "    ", "bb", ""}
 
 var queries = []string{"", "0", "A", "a", "AB", "ab", "ac", "aC", "b", "B", "a_", "a-", "a0", "a!", "aa", "abcdefghijkl", "ABCDEFGHIJKL",
 	"abcdefghijk", "abcdefghijklm", "abcdefghijkk", "zz", "\xff"}
@@ -109,7 +111,7 @@ func battery(bs []board, level int) {
 		do("find name desc " + hexs(q))
 	}
 	// by class: every class of the table and of the class alphabet, with a sample of names
-	cq := uniq(append(append([]string{}, cls...), "aaaa", "aaa", "aaab", "b", "", "zzzz", "Aaaa"))
+	cq := uniq(append(append([]string{}, cls...), "aaaa", "aaa", "aaab", "b", "bb", "bb ", "bb  ", "b   ", "", "zzzz", "Aaaa"))
 	nq := qs
 	if len(nq) > 9 {
 		nq = append([]string{}, names...)
@@ -178,6 +180,10 @@ func battery(bs []board, level int) {
 		for _, d := range []string{"asc", "desc"} {
 			do(fmt.Sprintf("walk name %s %d", d, n))
 			do(fmt.Sprintf("walk class %s %d", d, n))
+			if level >= 2 || n <= 3 || n >= vis {
+				do(fmt.Sprintf("dwalk name %s %d", d, n))
+				do(fmt.Sprintf("dwalk class %s %d", d, n))
+			}
 		}
 	}
 	wk := []string{"a", "A", "ab", "b", "abc", "0"}
@@ -220,12 +226,15 @@ func battery(bs []board, level int) {
 			}
 			do(fmt.Sprintf("page class %s %d %s:%s", d, n, hexs(c), hexs(q)))
 			do(fmt.Sprintf("apage %s %d %s -:%s", d, n, hexs("a"), hexs(q)))
+			do(fmt.Sprintf("dpage class %s %d %s:%s", d, n, hexs(c), hexs(q)))
 		}
 	}
 	do("page name asc 2 -")
 	do("page name desc 2 -")
 	do("page class asc 2 -")
 	do("page class desc 2 -")
+	do("dpage name asc 2 -")
+	do("dpage class desc 2 -")
 	do("apage asc 2 " + hexs("a") + " -")
 	do("apage desc 2 " + hexs("a") + " -")
 }
@@ -234,12 +243,16 @@ func battery(bs []board, level int) {
 func decorate(names []string, class5 bool) []board {
 	r := run.R
 	var bs []board
+	cl := classes[r.Intn(len(classes))]
 	for _, n := range names {
 		c4 := byte(' ')
 		if class5 && r.Intn(2) == 0 {
 			c4 = r.Pick([]byte("XaA\xa1"))
 		}
-		bs = append(bs, mkBoard(n, classes[r.Intn(len(classes))], c4, n != "" && r.Intn(6) == 0))
+		if r.Intn(2) == 0 { // sticky: several boards per class, so that page boundaries fall inside a class
+			cl = classes[r.Intn(len(classes))]
+		}
+		bs = append(bs, mkBoard(n, cl, c4, n != "" && r.Intn(6) == 0))
 	}
 	// random slot order
 	for i := len(bs) - 1; i > 0; i-- {
@@ -341,6 +354,9 @@ func generate() {
 
 	// 1. the cases outside the theorems' hypotheses, each judged under its own key
 	excluded()
+
+	// 1b. classes shorter than 4 bytes, blank-padded, holding several boards: every page boundary inside the class
+	paddedClasses()
 
 	// 2. exhaustive small shapes, smallest first
 	maxSize := 4
@@ -452,6 +468,41 @@ func excluded() {
 	battery(cur2boards(), 2)
 	resetTable(decorate(randomTable(30), true))
 	battery(cur2boards(), 1)
+}
+
+// paddedClasses: the by-class cursor of a board must resolve to that board also when its class column is padded
+// ("bb  "): every page size, both directions, summaries and details, and the explicit cursor of every board.
+func paddedClasses() {
+	for _, shape := range [][][2]string{
+		{{"a", "bb  "}, {"b", "bb  "}},
+		{{"a", "bb  "}, {"b", "bb  "}, {"c", "bb  "}},
+		{{"x", "aaaa"}, {"a", "bb  "}, {"b", "bb  "}, {"c", "bb  "}, {"y", "cccc"}},
+		{{"x", "b   "}, {"a", "bb  "}, {"b", "bb  "}, {"c", "b   "}, {"y", "    "}, {"z", "    "}},
+		{{"x", "bb"}, {"a", "bb  "}, {"b", "bb "}, {"c", "bb  "}, {"y", "bb"}},
+	} {
+		var bs []board
+		for _, s := range shape {
+			bs = append(bs, mkBoard(s[0], s[1], ' ', false))
+		}
+		resetTable(bs)
+		for n := 1; n <= len(bs)+1; n++ {
+			for _, d := range []string{"asc", "desc"} {
+				do(fmt.Sprintf("walk class %s %d", d, n))
+				do(fmt.Sprintf("dwalk class %s %d", d, n))
+				do(fmt.Sprintf("walk name %s %d", d, n))
+				do(fmt.Sprintf("dwalk name %s %d", d, n))
+			}
+		}
+		for _, s := range shape {
+			for _, d := range []string{"asc", "desc"} {
+				// the cursor as the bbs layer serialises it (class column as stored) and with the padding stripped
+				do(fmt.Sprintf("page class %s 1 %s:%s", d, hexs(s[1]), hexs(s[0])))
+				do(fmt.Sprintf("dpage class %s 1 %s:%s", d, hexs(s[1]), hexs(s[0])))
+				do(fmt.Sprintf("find class %s %s %s", d, hexs(s[1]), hexs(s[0])))
+				do(fmt.Sprintf("find class %s %s %s", d, hexs(strings.TrimRight(s[1], " ")), hexs(s[0])))
+			}
+		}
+	}
 }
 
 func malformed() {
